@@ -357,7 +357,9 @@ func (h *Handler) ProcessPacket(frame packet.Frame) error {
 			// Note: detected one situation where android probed external DNS IP. Not sure if this occur in other clients.
 			//       to avoid issues, check DstIP is in the local subnet.
 			//       arp  : probe reject for ip=8.8.8.8 from mac=84:11:9e:03:89:c0 (android phone) - 10 March 2021
-			if h.session.NICInfo.HomeLAN4.Contains(arpFrame.DstIP()) {
+			//       Never answer for the router's own address: the reply would bind the router IP to our MAC at a host
+			//       that is not hunted; the router defends its address itself.
+			if h.session.NICInfo.HomeLAN4.Contains(arpFrame.DstIP()) && arpFrame.DstIP() != h.session.NICInfo.RouterAddr4.IP {
 				Logger.Msg("probe reject for").IP("ip", arpFrame.DstIP()).MAC("fromMAC", arpFrame.SrcMAC()).IP("offer", offer).Write()
 				// unicast reply to srcMAC
 				h.Reply(arpFrame.SrcMAC(), packet.Addr{MAC: h.session.NICInfo.HostAddr4.MAC, IP: arpFrame.DstIP()}, packet.Addr{MAC: arpFrame.SrcMAC(), IP: packet.IP4Broadcast})
